@@ -429,15 +429,16 @@ Proof. exact PtP.queue_site_independent. Qed.
 Print Assumptions C10_queue_site_independent.
 
 (** Tie to the source (regenerated on every run): every [go] statement of the library —
-    whatever its file or function is called — sits in a spawn pattern whose arithmetic is one
-    of the modelled shapes (fork-join partition with an exact-cover theorem, row-pipeline
-    workers, frame work queue, or the goroutine that closes the result channel after the
-    join); the translator refuses on any other.  And the trace points the checker relies
-    on are the hook's constants. *)
+    whatever its file or function is called — is a spawn loop `for w := 0; w < N; w++` handing
+    out ranges, a set of workers draining a queue, or a single goroutine (the one that closes
+    the result channel after the join).  Only the goroutine STRUCTURE is stated here; whether
+    the ranges cover is C12's subject (a change of the partition arithmetic cannot break this
+    statement).  And the trace points the checker relies on are the hook's constants. *)
 From WebpGen Require Sites Consts PartShapes.
+From Webp Require Conc.ConcPartExpr.
 Theorem C10_go_statements_modelled :
-  forallb (fun e => existsb (String.eqb (snd e)) Pt.proved_shapes) WebpGen.PartShapes.site_shapes = true /\
-  WebpGen.PartShapes.site_shapes <> [].
+  forallb Conc.ConcPartExpr.structure_understood WebpGen.PartShapes.sites = true /\
+  WebpGen.PartShapes.sites <> [].
 Proof. split; [vm_compute; reflexivity | discriminate]. Qed.
 Print Assumptions C10_go_statements_modelled.
 
